@@ -970,6 +970,34 @@ func (p *TermPool) FPRound(mode int, a *Term) *Term {
 			return a
 		}
 	}
+	if a.Op == OpFPDiv && (mode == rmRTZ || mode == rmRTN || mode == rmRTP) {
+		// floor/ceil/trunc of the float quotient of two exactly represented integers is the
+		// corresponding integer quotient (lemma: intfloat-div-round, checked by selftest)
+		if x1, w1, ok1 := p.intView(a.Args[0]); ok1 {
+			if x2, w2, ok2 := p.intView(a.Args[1]); ok2 && max(w1, w2)+2 <= 64 && max(w1, w2)+2 <= fpPrec(w)+1 {
+				W := max(w1, w2) + 2
+				x, y := p.resizeSigned(x1, W), p.resizeSigned(x2, W)
+				q := p.bvBin(OpBVSDiv, x, y)
+				r := p.bvBin(OpBVSRem, x, y)
+				zero := p.BV(0, W)
+				inexact := p.Not(p.Eq(r, zero))
+				// sign of the exact quotient when inexact: negative iff signs of x and y differ
+				neg := p.Not(p.Eq(p.bvCmp(OpBVSlt, x, zero), p.bvCmp(OpBVSlt, y, zero)))
+				adj := q
+				switch mode {
+				case rmRTN:
+					adj = p.Ite(p.And(inexact, neg), p.bvBin(OpBVSub, q, p.BV(1, W)), q)
+				case rmRTP:
+					adj = p.Ite(p.And(inexact, p.Not(neg)), p.bvBin(OpBVAdd, q, p.BV(1, W)), q)
+				}
+				orig := p.intern(&Term{Op: OpFPRoundInt, Sort: a.Sort, Args: []*Term{a}, P1: mode})
+				// a zero result is -0 exactly when the operands have different signs (x = 0 counts as +)
+				negZero := p.And(p.Eq(adj, zero), neg)
+				val := p.Ite(negZero, p.FPBits(uint64(1)<<uint(w-1), w), p.FPFromBV(adj, true, w))
+				return p.Ite(p.Eq(y, zero), orig, val)
+			}
+		}
+	}
 	if a.IsConst() && (w == 32 || w == 64) {
 		x := fpFromBits(a.C, w)
 		var r float64
